@@ -4,7 +4,7 @@
 
 use super::fmt::{flat_join, join, Span, TokenFmt};
 use super::{DocString, NumberParts};
-use crate::ast::{BinOpType, Expr, Precedence, UnaryOpType};
+use crate::ast::{starts_with_sign, BinOpType, Expr, Precedence, UnaryOpType};
 use crate::output::Digits;
 use chrono::{DateTime, TimeZone};
 use serde_derive::Serialize;
@@ -199,8 +199,15 @@ impl ExprReply {
                     if prec < Precedence::Mul {
                         literal!("(");
                     }
-                    for expr in exprs.iter() {
-                        recurse(expr, parts, Precedence::Pow);
+                    for (i, expr) in exprs.iter().enumerate() {
+                        // See the Display impl of Expr.
+                        if i > 0 && starts_with_sign(expr) {
+                            literal!("(");
+                            recurse(expr, parts, Precedence::Equals);
+                            literal!(")");
+                        } else {
+                            recurse(expr, parts, Precedence::Pow);
+                        }
                     }
                     if prec < Precedence::Mul {
                         literal!(")");
